@@ -168,8 +168,9 @@ OnRemove(ev, T, Y0) ==
   IF PreLost(ev, T, Y0) THEN Res(T, [Y EXCEPT !.lost = TRUE], pv, "cache-history-inconsistent")
   ELSE IF ev.by = 0 \/ f = 0 \/ T.fl[f].key # k
   THEN Res(ForceDrop(T, k), [Y EXCEPT !.expect = IF InLRU(T, k) THEN k ELSE NoKey], pv, "remove-by-unknown-flight")
-  ELSE IF T.fl[f].st = "ok"
+  ELSE IF T.fl[f].st = "ok" /\ Y.lostn = 0
   THEN \* the node answered OK, yet the entry is removed: not a removal the property licenses
+       \* (unless a connection was killed / requests time out in this scenario: then the answer may never have arrived)
        Res(ForceDrop(T, k), [Y EXCEPT !.expect = IF InLRU(T, k) THEN k ELSE NoKey], pv, "remove-after-successful-prepare")
   ELSE LET T1 == IF T.fl[f].st = "fail" THEN T ELSE [T EXCEPT !.fl[f].st = "fail"]   \* failed locally (no answer)
        IN Res(FlightDone(T1, f), [Y EXCEPT !.expect = IF InLRU(T, k) THEN k ELSE NoKey], pv, "")
@@ -212,7 +213,12 @@ OnPrepReply(ev, T, Y) ==
   LET w == <<ev.wire, ev.stream>>
       f == Get(Y.sends, w, 0)
       Y1 == [Y EXCEPT !.sends = Del(@, w)]
-  IN IF f = 0 \/ T.fl[f].st # "sent" THEN Res(T, Y1, "", "prepare-answer-unattributed")
+  IN IF f # 0 /\ T.fl[f].st \in {"fail", "done_fail"}
+     THEN \* an answer to a PREPARE the driver has already given up (timeout, connection lost): only the node changed
+          IF ~ev.ok THEN Res(T, Y1, "", "")
+          ELSE LET T1 == NodePrepareOk([T EXCEPT !.fl[f].st = "sent"], f)
+               IN Res([T1 EXCEPT !.fl[f] = T.fl[f]], Y1, "", "")
+     ELSE IF f = 0 \/ T.fl[f].st # "sent" THEN Res(T, Y1, "", "prepare-answer-unattributed")
      ELSE IF ~ev.ok THEN Res(NodePrepareFail(T, f), Y1, "", "")
      ELSE LET T1 == NodePrepareOk(T, f)
               m == T1.fl[f].id
@@ -286,7 +292,7 @@ OnEnd(ev, T, Y) ==
   IN
   IF Y.lost THEN Res(T, Y, direct, "")
   ELSE IF ~Has(T.ex, e) THEN Res(T, Y, direct,
-                            IF ev.cls \in {"ctx", "env"} THEN "" ELSE "executor-ended-without-a-lookup")
+                            IF ev.cls \in {"ctx", "closed", "timeout"} THEN "" ELSE "executor-ended-without-a-lookup")
   ELSE
   LET x == T.ex[e]
       kind == Get(Y.kinds, e, "query")
